@@ -1,9 +1,9 @@
 (* C20 — dependency ordering routines are correct on every graph.
    Only statements, [exact], and [Print Assumptions] live here. *)
 From Coq Require Import List Arith Bool Permutation.
-Require Import TT.Model.Base TT.Model.Topo TT.Model.Kahn.
+Require Import TT.Model.Base TT.Model.Topo TT.Model.Kahn TT.Model.C20Resolver.
 Require Import TT.Proofs.TopoProofs TT.Proofs.KahnProofs TT.Proofs.Bridge TT.Proofs.C20Extra.
-Require Import TT.Spec.P20 TT.Proofs.P20Sound TT.Proofs.P20KahnSound.
+Require Import TT.Spec.P20 TT.Spec.P20Hist TT.Proofs.P20Sound TT.Proofs.P20KahnSound TT.Proofs.P20HistSound.
 Import ListNotations.
 
 Section C20.
@@ -93,6 +93,67 @@ Theorem C20_model_passes_oracles : forall (g : Topo.graph node) (req : list node
 Proof. intros. split; [apply topo_sort_passes_oracle | apply kahn_passes_oracle]. Qed.
 End C20_oracles.
 
+(* Both routines live in mutable objects (DependencyResolver: add_node / add_dependency /
+   resolve_build_order; TypeDependencyGraph: add_dependency / add_dependencies /
+   topological_sort_types). For EVERY history of operations on one object, every query answers for
+   exactly what has been registered up to that point - nothing remembered from an earlier query,
+   nothing registered later missing. [ord] is the (unknown) iteration order of the hash collections. *)
+Section C20_histories.
+Context {node : Type} {ED : EqDec node}.
+
+Theorem C20_resolver_resolution_in_history :
+  forall (ord : list node -> list node), (forall l, Permutation (ord l) l) ->
+  forall pre post : list (rop node),
+  let s := state_after pre rinit in
+  let r := kahn (ord (rnodes s)) (rdeps s) in
+  rrun ord rinit (pre ++ Resolve :: post) = rrun ord rinit pre ++ r :: rrun ord s post
+  /\ rdeps s = deps_of pre
+  /\ (forall n, In n (rnodes s) <-> In n (mentioned pre))
+  /\ match r with
+     | Ok l => Bridge.acyclic (deps_of pre) /\ Permutation l (rnodes s)
+               /\ (forall d, In d (deps_of pre) -> before (snd d) (fst d) l)
+     | Cycle _ => ~ Bridge.acyclic (deps_of pre)
+     | OutOfFuel => False
+     end.
+Proof. exact resolution_in_history. Qed.
+
+Theorem C20_resolver_history_oracle_exact : forall (ops : list (rop node)) (outs : list (option (list node))),
+  hist_ok_b rinit ops outs = true <-> hist_spec rinit ops outs.
+Proof. intros ops outs. apply hist_ok_b_spec. exact rinv_init. Qed.
+
+Theorem C20_resolver_history_model_passes :
+  forall (ord : list node -> list node), (forall l, Permutation (ord l) l) ->
+  forall ops : list (rop node), hist_spec rinit ops (map res_opt (rrun ord rinit ops)).
+Proof. intros ord Hp ops. apply resolver_history_correct; [exact Hp | exact rinv_init]. Qed.
+
+(* TypeDependencyGraph: the two mutators are map updates ... *)
+Theorem C20_graph_mutators : forall (g : Topo.graph node) a b l n x,
+  (In x (deps (gapply g (GDep a b)) n) <-> (n = a /\ x = b) \/ In x (deps g n)) /\
+  (In x (deps (gapply g (GDeps a l)) n) <-> if eq_dec n a then In x l else In x (deps g n)).
+Proof. intros. split; [apply add_dependency_map | apply add_dependencies_map]. Qed.
+
+(* ... and every sort of every history is total and satisfies the three clauses on the graph as it
+   stands at that point *)
+Theorem C20_graph_history :
+  forall (ord : list node -> list node), (forall l, Permutation (ord l) l) ->
+  forall (ops : list (gop node)) (g : Topo.graph node),
+  exists outs, grun ord g ops = map Some outs /\ ghist_spec g ops outs.
+Proof. exact graph_history_correct. Qed.
+
+Theorem C20_graph_history_oracle_exact : forall (ops : list (gop node)) (g : Topo.graph node) outs,
+  ghist_ok_b g ops outs = true <-> ghist_spec g ops outs.
+Proof. exact ghist_ok_b_spec. Qed.
+End C20_histories.
+
+Example C20_ex_history :
+  rrun (fun l => l) rinit [AddDep 1 2; Resolve; AddNode 3; Resolve; AddDep 2 1; Resolve]
+  = [Ok [2; 1]; Ok [2; 3; 1]; Cycle [1; 2]].
+Proof. vm_compute. reflexivity. Qed.
+Example C20_ex_graph_history :
+  grun (fun l => l) [] [GDep 1 2; GSort [1]; GDep 2 3; GSort [1]; GDeps 1 [3]; GSort [1]]
+  = [Some [2; 1]; Some [3; 2; 1]; Some [3; 1]].
+Proof. vm_compute. reflexivity. Qed.
+
 (* non-vacuity: concrete inputs meet the premises and give non-trivial results *)
 Example C20_ex_acyclic : acyclic [(1, [2]); (2, [])] /\ ~ acyclic [(1, [1])].
 Proof. split.
@@ -126,3 +187,9 @@ Print Assumptions C20_transitive_on_cyclic_refuted.
 Print Assumptions C20_topo_oracle_exact.
 Print Assumptions C20_kahn_oracle_exact.
 Print Assumptions C20_model_passes_oracles.
+Print Assumptions C20_resolver_resolution_in_history.
+Print Assumptions C20_resolver_history_oracle_exact.
+Print Assumptions C20_resolver_history_model_passes.
+Print Assumptions C20_graph_mutators.
+Print Assumptions C20_graph_history.
+Print Assumptions C20_graph_history_oracle_exact.
